@@ -4,7 +4,7 @@ import lib, uris
 from lib import enc, enc_s, dec, show
 
 PID = "C09"
-SHAPES = {"14": "c08_abs_exposes_dslash", "71": "c08_rel_cancels", "74": "c08_rel_stale_dot", "75": "c08_rel_dot_eaten", "72": "c08_rel_exposes_colon", "73": "c08_rel_exposes_empty"}
+SHAPES = {"71": "c08_rel_cancels", "74": "c08_rel_stale_dot", "75": "c08_rel_dot_eaten", "72": "c08_rel_exposes_colon", "73": "c08_rel_exposes_empty"}
 
 def gen(chk, mdl):
     q = chk.tier == "quick"
